@@ -225,6 +225,8 @@ def _gen_emulsion(rng):
         else:
             r = rng.uniform(0.1, 2.0 if style == "crowd" else 0.9)
             p = [rng.uniform(0, L) for _ in range(dim)]
+            if periodic and rng.random() < 0.25:
+                p = [x + rng.choice([-2, -1, 1, 2, 3]) * L for x in p]   # a centre outside the fundamental cell
         if style == "dupes" and drops and rng.random() < 0.3:
             p, r = list(drops[rng.randrange(len(drops))][0]), rng.choice([r, drops[-1][1]])
         drops.append((p, r))
